@@ -41,7 +41,7 @@ def r05_1(ctx):
     F = ctx.F
     d = ctx.method(S, 'dispatch')
     sites = [x for x in d.calls() if (d.callee_name(x[1]) or '').endswith('::get_allocated')]
-    ctx.need(len(sites) == 2, "two get_allocated sites in dispatch")
+    ctx.need(len(sites) >= 2, "get_allocated sites in dispatch")
     for x in sites:
         bi = x[0]
         si = len(d.blocks[bi]['s'])
